@@ -267,3 +267,18 @@ V("C11", "huawei_single_reset_with_staying_line_again", "fire", [(HVL, "        
 V("C11", "twin_cisco_kept_subtracted_first", "silent", [(CVL, "    removed = old.difference(new) - kept\n", "    gone = old - kept\n    removed = gone.difference(new)\n")])
 V("C11", "twin_huawei_single_reset_nested_if", "silent", [(HVL, "        elif not multi and not multi_all and not diff[Op.UNCHANGED]:\n            # the bare reverse drops the whole mapping: not when another line of the same key stays\n            yield (False, rule[\"reverse\"].format(*key), None)\n            return",
                                                       "        elif not multi and not multi_all:\n            if not diff[Op.UNCHANGED]:\n                yield (False, rule[\"reverse\"].format(*key), None)\n                return")])
+# ---------------------------------------------------------------- round 4 rules (one firing variant each, silent twins where a one-line respelling exists)
+V("C02", "acl_step_needs_partial_results", "fire", [(GEN, "        if not ctx.args.no_acl:\n            acl_rules = generators.compile_acl_text(res.acl_text(), device.hw.vendor)", "        if partial_results and not ctx.args.no_acl:\n            acl_rules = generators.compile_acl_text(res.acl_text(), device.hw.vendor)")], rule="C02.R10")
+V("C02", "twin_acl_step_guard_respelled", "silent", [(GEN, "        if not ctx.args.no_acl:\n            acl_rules = generators.compile_acl_text(res.acl_text(), device.hw.vendor)", "        use_acl = not ctx.args.no_acl\n        if use_acl:\n            acl_rules = generators.compile_acl_text(res.acl_text(), device.hw.vendor)")])
+V("C01", "first_rule_match_wins", "fire", [(PT, "            matches.append(((rule, (not is_global)), {\"raw_rule\": raw_rule, \"key\": match.groups()}))", "            return [((rule, (not is_global)), {\"raw_rule\": raw_rule, \"key\": match.groups()})]")], rule="C01.R10")
+V("C12", "result_labelled_with_trace_id", "fire", [(PAR, "        task_result = TaskResult(worker_name, task.payload)", "        task_result = TaskResult(worker_name, device_id)")], rule="C12.R8")
+V("C12", "twin_result_payload_local", "silent", [(PAR, "        task_result = TaskResult(worker_name, task.payload)", "        submitted_id = task.payload\n        task_result = TaskResult(worker_name, submitted_id)")])
+V("C13", "ensure_pointer_replaces_non_objects", "fire", [(JT, "            if part not in doc_pointer or doc_pointer[part] is None:", "            if not isinstance(doc_pointer.get(part), dict):")], rule="C13.R7")
+V("C13", "delete_array_items", "fire", [(JT, "            if isinstance(doc, dict) and isinstance(part, str):\n                doc.pop(part, None)", "            if isinstance(doc, dict) and isinstance(part, str):\n                doc.pop(part, None)\n            elif isinstance(doc, list) and isinstance(part, int) and part < len(doc):\n                del doc[part]")], rule="C13.R7")
+V("C05", "split_dedents_first", "fire", [(TP, "        return list(filter(None, text.split(\"\\n\")))", "        return list(filter(None, textwrap.dedent(text).split(\"\\n\")))")], rule="C05.R2")
+V("C07", "row_not_single_spaced", "fire", [(SX, "    row = re.sub(r\"\\s+\", \" \", raw_rule.strip())", "    row = raw_rule.strip()")], rule="C07.R6")
+V("C07", "twin_row_single_spaced_by_split", "silent", [(SX, "    row = re.sub(r\"\\s+\", \" \", raw_rule.strip())", "    row = \" \".join(raw_rule.split())")])
+V("C03", "fold_case_of_whole_block", "fire", [(CM, "        if diff_pre[row][\"match\"][\"attrs\"][\"ignore_case\"]:\n            new_row = row.lower()", "        if True:\n            new_row = row.lower()")], rule="C03.R10")
+V("C03", "moved_does_not_raise_disorder", "fire", [(CM, "        elif block_in_disorder or index != old_indexes[row]:\n            block_in_disorder = True\n", "        elif block_in_disorder or index != old_indexes[row]:\n")], rule="C03.R9")
+V("C18", "remember_missing_rul", "fire", [("annet/rulebook/__init__.py", "        if name in self._escaped_rul_cache:\n            return self._escaped_rul_cache[name]\n", "        if name in self._escaped_rul_cache:\n            return self._escaped_rul_cache[name]\n        self._escaped_rul_cache[name] = None\n")], rule="C18.R8")
+V("C09", "dialog_without_nl_skipped", "fire", [(DP, "        raise Exception(\"not supported false send_nl\")", "        return None")], rule="C09.R10")
